@@ -24,6 +24,7 @@ type DNode struct {
 	HasTail bool
 	Tail   []byte
 	Val    []int // leaf value bytes, or NilV
+	TopBit bool  // inner: the last stored bit of the node's bitmap is set
 }
 
 type Decoded struct {
@@ -120,6 +121,7 @@ func Decode(sl *trie.Slim) (*Decoded, error) {
 	type inn struct {
 		big, short bool
 		labels     []int
+		top        bool
 	}
 	inners := []inn{}
 	total := 1
@@ -165,6 +167,7 @@ func Decode(sl *trie.Slim) (*Decoded, error) {
 				bm[b] = bmGet(innerW, off+b)
 			}
 		}
+		n.top = size > 0 && bmGet(innerW, off+size-1)
 		off += size
 		for b, set := range bm {
 			if set {
@@ -222,7 +225,7 @@ func Decode(sl *trie.Slim) (*Decoded, error) {
 	for id := 0; id < total; id++ {
 		if bmGet(sl.NodeTypeBM.Words, id) {
 			in := inners[ii]
-			n := DNode{Inner: true, Big: in.big, Short: in.short, Labels: in.labels, Step: -1}
+			n := DNode{Inner: true, Big: in.big, Short: in.short, Labels: in.labels, Step: -1, TopBit: in.top}
 			if ipfx[ii] != nil {
 				n.HasPfx = true
 				d.StepCnt++
